@@ -43,7 +43,7 @@ def judge(chk, case, obs, k, sig):
     point = "%s:%s" % (f["where"], f["func"])
     chk.count("function", point)
     chk.coverage.setdefault("_points", set()).add((f["where"], f["func"], f["line"]))
-    live = set(f["live"])
+    live = set(f["live"]) - set(f.get("vanished", []))
     problems = []
     if a["raised"] != "ConductorAbort":
         problems.append("the run ended with %s (%s) instead of reporting that it was aborted" % (a["raised"], a.get("message", "")))
@@ -69,10 +69,17 @@ def sweep(chk, case, ks, sigs):
     n = 0
     for k in ks:
         sig = sigs[k % len(sigs)]
-        obs = run_impl(case, inject={"k": k, "sig": sig})
+        obs = run_impl(case, inject={"k": k, "sig": sig, "vanish_first": k % 3 == 0})
         chk.coverage["evaluations"] += 1
         if obs.crash is not None:
-            chk.violation("impl-violation", "injection run crashed: %s" % obs.crash[:300], {"input": {"case": case.to_json(), "k": k}}, match_key={"point": "harness"}, size=1)
+            f = (obs.abort or {}).get("fired") or {}
+            chk.violation("impl-violation", "after %s at %s:%s line %s the run did not end cleanly: %s" % (signal.Signals(sig).name, f.get("where"), f.get("func"), f.get("line"), obs.crash[:300]),
+                          {"input": {"case": case.to_json(), "k": k, "sig": int(sig)}, "impl_observation": {"crash": obs.crash, "abort": obs.abort}},
+                          match_key={"point": "%s:%s" % (f.get("where"), f.get("func"))}, size=1)
+            if obs.crash.startswith("Timeout"):
+                chk.coverage["timeouts"] = chk.coverage.get("timeouts", 0) + 1
+                if chk.coverage["timeouts"] >= 3:
+                    return n
             continue
         if judge(chk, case, obs, k, sig):
             n += 1
@@ -152,7 +159,8 @@ def run(tier, seed, replay=None):
     if replay is not None:
         inp = replay["input"]
         case = Case.from_json(inp["case"])
-        inj = {"k": None if inp.get("popen_end") else inp["k"], "sig": inp.get("sig", int(signal.SIGINT)), "popen_end": bool(inp.get("popen_end")), "spawn_index": inp.get("spawn_index", 2)}
+        inj = {"k": None if inp.get("popen_end") else inp["k"], "sig": inp.get("sig", int(signal.SIGINT)), "popen_end": bool(inp.get("popen_end")), "spawn_index": inp.get("spawn_index", 2),
+               "vanish_first": (inp.get("k") or 1) % 3 == 0}
         obs = run_impl(case, inject=inj)
         print("replay: abort observation = %r" % (obs.abort,))
         judge(chk, case, obs, inp.get("k"), inj["sig"])
@@ -167,9 +175,20 @@ def run(tier, seed, replay=None):
         total_events += n
         ks = list(range(1, n + 1))
         if per_case is not None:
-            # every event of the launch/wait/finish code is close to another sampled one: stride + random
-            stride = max(1, n // (per_case // 2))
-            ks = sorted(set(ks[::stride]) | set(chk.rng.sample(ks, min(len(ks), per_case // 2))))
+            # every line of the launch / wait / finish / abort-handling code (where the handlers' pre-state
+            # changes), plus a stride and a random sample of the rest (planning, bookkeeping)
+            crit = {"start_execution", "_launch_ops_if_able", "_wait_for_next_inflight_op", "wait_for_next_op", "finish_execution",
+                    "run_plan", "terminate_processes", "add_op", "track", "wait", "maybe_tee", "popen_arg", "tee_pipe"}
+            funcs = base.abort.get("funcs") or []
+            critical = [i + 1 for i, fn in enumerate(funcs) if fn in crit]
+            seen_sites, picked = {}, []
+            for kk in critical:   # at most 4 visits of one function are needed to see it with 0/1/2/3 processes in flight
+                c = seen_sites.get(funcs[kk - 1], 0)
+                if c < 60:
+                    seen_sites[funcs[kk - 1]] = c + 1
+                    picked.append(kk)
+            stride = max(1, n // (per_case // 3))
+            ks = sorted(set(picked) | set(ks[::stride]) | set(chk.rng.sample(ks, min(len(ks), per_case // 3))))
         fired += sweep(chk, case, ks, sigs)
         chk.sample({"graph": case.graph_text(), "jobs": case.jobs, "line_events": n, "injections": len(ks)})
     # known finding D7': inside Popen() after the fork, at the 1st and 2nd spawn
